@@ -4,7 +4,7 @@ import numpy as np
 from . import common, circ
 
 PID = 'C10'
-TARGETS = ['KyupyVerif.Props.C10', 'KyupyVerif.Props.C10Datasheet']
+TARGETS = ['KyupyVerif.Props.C10', 'KyupyVerif.Props.C10Datasheet', 'KyupyVerif.Props.C10Library']
 RULE = ('(a) correspondence: Lean model dumps (Model/Transform.lean) vs real copy() / pickle round trip / '
         'eliminate_1to1_forks() on random circuits (Verilog- and bench-reader port styles, permuted node order so that state '
         'elements sit anywhere incl. last, fork dictionary order != index order), NNet.wf and NNet.forkIns1 (hypotheses of '
@@ -34,8 +34,10 @@ def theorems():
 
 
 def theorems_ds():
-    """composition with C19 (separate module: it depends on the generated library tables)"""
-    return common.theorems_of('KyupyVerif/Props/C10Datasheet.lean', 'KV.C10')
+    """composition with C19 (separate module: it depends on the generated library tables) and the progress theorems with the
+    kernel sweep over the generated implementation dumps (Props/C10Library.lean)"""
+    return (common.theorems_of('KyupyVerif/Props/C10Datasheet.lean', 'KV.C10') +
+            common.theorems_of('KyupyVerif/Props/C10Library.lean', 'KV.C10'))
 
 
 def get_tlib(name):
@@ -624,7 +626,7 @@ def cell_features(tlib, kind):
     return f
 
 
-def rand_lib_circuit(rng, tlib, n_inst=None, p_unconn_in=0.08, p_unconn_out=0.15, special=None):
+def rand_lib_circuit(rng, tlib, n_inst=None, p_unconn_in=0.08, p_unconn_out=0.15, special=None, only=None):
     """random circuit instantiating library cells (Verilog-reader style: port cells and signal forks)"""
     from kyupy.circuit import Circuit, Node, Line
     c = Circuit('lib')
@@ -636,6 +638,7 @@ def rand_lib_circuit(rng, tlib, n_inst=None, p_unconn_in=0.08, p_unconn_out=0.15
     for k in range(n_inst):
         special = [k for k in (special or []) if k in tlib.cells]
         kind = rng.choice(special) if special and rng.random() < 0.5 else rng.choice(rng.choice(groups))
+        if only: kind = rng.choice(only)          # instances of the given kinds only (cells certified for resolve_datasheet_sem)
         pd = tlib.cells[kind][1]
         u = Node(c, f'u{k}', kind)
         for p, (idx, isout) in pd.items():
@@ -966,6 +969,7 @@ def is_regular(c, u, impl):
 def corr_subst(ck, n):
     rng = ck.rng
     raised = changed = covered = covered_rm = covered_gap = covered_gen = covered_gen_ign = covered_gen_nodes = 0
+    some_cov = some_raise_outside = 0
     for it in range(n):
         impl, itags = lib_impl(rng) if rng.random() < 0.3 else rand_impl(rng)
         c, htags = rand_host(rng, impl)
@@ -1045,8 +1049,34 @@ def corr_subst(ck, n):
                         ck.broken_tie('substitute_sem_general contains the uses of substitute_sem', f'hypotheses {hyp}', inp={'request': req})
             except Exception as ex:
                 ck.broken_tie('substitute_sem hypotheses', f'driver: {type(ex).__name__}: {ex}'[:300], inp={'request': req})
+        # hypotheses of the PROGRESS theorem C10.substitute_isSome (audit finding 6) evaluated on EVERY case, raising ones included:
+        # inside the hypotheses the model returns a circuit (theorem), so must the real code (a raise there is a broken tie of
+        # the domain facts: host wfNoTrail with gap-free forks, cell a node that is no port / no fork, implementation well-formed)
+        sometag = 'isSome-hyp:not-evaluated'
+        try:
+            sh = common.run_driver(['substsome' + req[len('subst'):]])[0].split()
+            snames = ['host-wfNoTrail', 'host-forks-gapfree', 'impl-wf', 'cell-node-no-port', 'cell-no-fork', 'implGenOK', 'targetsOK',
+                      'noSelfIgn', 'names-fresh', 'arity']
+            sfailed = [nm for nm, v in zip(snames, sh) if v != '1']
+            if (sh[10] == '1') != (not sfailed):
+                ck.broken_tie('substitute_isSome hypotheses', f'substSomeHypB = {sh[10]} but clauses {sh[:10]}', inp={'request': req})
+            if not sfailed:
+                sometag = 'isSome-hyp:covered'; some_cov += 1
+                if real == 'raise' or sh[11] != '1':
+                    ck.broken_tie('substitute_isSome: inside the hypotheses the call must succeed',
+                                  f'real {"raises" if real == "raise" else "returns"}, model isSome = {sh[11]}', inp={'request': req})
+            else:
+                sometag = 'isSome-hyp:uncovered:' + sfailed[0]
+                # domain facts: every generated host is well-formed with gap-free forks, every generated implementation well-formed
+                if sfailed[0] in ('host-wfNoTrail', 'host-forks-gapfree', 'impl-wf', 'cell-node-no-port', 'cell-no-fork'):
+                    ck.broken_tie('substitute_isSome: domain fact fails on a generated case', f'{sfailed[0]}', inp={'request': req})
+                if real == 'raise': some_raise_outside += 1
+            if 'lib' in itags and sh[12] != '1':
+                ck.broken_tie('library_impls_ok on a real library implementation', f'implSomeOKB = {sh[12]}', inp={'request': req})
+        except Exception as ex:
+            ck.broken_tie('substitute_isSome hypotheses', f'driver: {type(ex).__name__}: {ex}'[:300], inp={'request': req})
         ck.case(key=('subst', req), nontrivial=real != 'raise' and len(impl.nodes) > 0,
-                tag=['stream:corr-subst', f"subst-result:{'raise' if real == 'raise' else 'ok'}", semtag] + [f'impl:{t}' for t in itags] +
+                tag=['stream:corr-subst', f"subst-result:{'raise' if real == 'raise' else 'ok'}", semtag, sometag] + [f'impl:{t}' for t in itags] +
                     [f'impl-shape:{x}' for x in feats] + [f'host:{t}' for t in sorted(set(htags))])
     ck.extra['corr_subst_raised'] = raised
     ck.extra['corr_subst_with_removed_nodes'] = changed
@@ -1056,12 +1086,14 @@ def corr_subst(ck, n):
     ck.extra['corr_subst_in_hypotheses_of_substitute_sem_general'] = covered_gen
     ck.extra['corr_subst_only_general_ignored_pin'] = covered_gen_ign
     ck.extra['corr_subst_only_general_no_designated_cell'] = covered_gen_nodes
+    ck.extra['corr_subst_in_hypotheses_of_substitute_isSome'] = some_cov
+    ck.extra['corr_subst_raising_outside_hypotheses_of_substitute_isSome'] = some_raise_outside
 
 
 def corr_resolve(ck, n):
     """resolve_tlib_cells(): model (resolveCells = substitute folded over the snapshot of the nodes) vs real code"""
     rng = ck.rng
-    raised = covered = covered_ds = covered_gen = covered_gen_only = 0
+    raised = covered = covered_ds = covered_gen = covered_gen_only = covered_ds_gen = 0
     import collections
     ds_tally = collections.Counter()
     for it in range(n):
@@ -1070,7 +1102,13 @@ def corr_resolve(ck, n):
         else:
             tl = rng.choice(LIBS); special = SPECIAL.get(tl); libtag = tl
         tlib = get_tlib(tl)
-        c = rand_lib_circuit(rng, tlib, special=special, p_unconn_in=rng.choice([0.0, 0.08, 0.2]), p_unconn_out=rng.choice([0.0, 0.15, 0.4]))
+        only = None
+        if libtag in LIBS and rng.random() < 0.3:
+            # circuits over cells of the listed families only, input pins connected, outputs partly open: the hypotheses of
+            # resolve_datasheet_sem(_general) are reachable (an instance with an open output is covered by the general form only)
+            only = [k for k in sorted(tlib.cells) if cell_cert(libtag, k)[0] == 'ok']
+        c = rand_lib_circuit(rng, tlib, special=special, p_unconn_in=0.0 if only else rng.choice([0.0, 0.08, 0.2]),
+                             p_unconn_out=rng.choice([0.0, 0.15, 0.4]), only=only)
         if rng.random() < 0.4: c = permuted(rng, c)
         kinds = sorted({x.kind for x in c.nodes if x.kind in tlib.cells})
         c0json = to_json(c)
@@ -1125,6 +1163,10 @@ def corr_resolve(ck, n):
                                           f'wfNoTrail(real result) = {rwfnt}, wfNoTrail(model result) = {hyp[6]}', inp={'request': req[:4000]})
                         if not ok:
                             covered_gen_only += 1; semtag = 'sem-hyp:covered-general'
+                            # resolve_datasheet_sem_general: the per-instance certificate under resolveGenOKB (audit finding 6)
+                            dstag = ds_hyp(libtag, tlib, hnames0, hdump0, insts0)
+                            if dstag == 'ds-hyp:covered': dstag = 'ds-hyp:covered-general'; covered_ds_gen += 1
+                            ds_tally[dstag] += 1
                     elif ok:
                         ck.broken_tie('resolve_sem_general contains the uses of resolve_sem', f'hypotheses {hyp}', inp={'request': req[:4000]})
                     else:
@@ -1132,8 +1174,10 @@ def corr_resolve(ck, n):
             except Exception as ex:
                 ck.broken_tie('resolve_sem hypotheses', f'driver: {type(ex).__name__}: {ex}'[:300], inp={'request': req[:4000]})
         ck.case(key=('resolve', req), nontrivial=real != 'raise' and len(kinds) > 0,
-                tag=['stream:corr-resolve', f'lib:{libtag}', f'instances:{min(len(kinds), 4)}', f"resolve-result:{'raise' if real == 'raise' else 'ok'}", semtag, dstag])
+                tag=['stream:corr-resolve', f'lib:{libtag}', f'instances:{min(len(kinds), 4)}', f"resolve-result:{'raise' if real == 'raise' else 'ok'}", semtag, dstag] +
+                    (['gen:listed-families-only'] if only else []))
     ck.extra['corr_resolve_in_hypotheses_of_resolve_datasheet_sem'] = covered_ds
+    ck.extra['corr_resolve_in_hypotheses_of_resolve_datasheet_sem_general_only'] = covered_ds_gen
     ck.extra['corr_resolve_ds_hyp'] = dict(ds_tally)
     ck.extra['corr_resolve_raised'] = raised
     ck.extra['corr_resolve_in_hypotheses_of_resolve_sem'] = covered
@@ -1358,7 +1402,9 @@ def run(ck):
     ck.assumptions += [
         'copy_dump_eq / pickle_dump_eq / elim_* / substitute_* are theorems about the dump-level models; the models are tied to '
         'circuit.py by exact dump correspondence and NNet.wf / NNet.forkIns1 are evaluated on every real dump',
-        'elim_sem is stated for every consistent labelling (no uniqueness needed); that LogicSim computes a consistent labelling is C01',
+        'elim_sem maps every consistent labelling of the circuit to one of the result; elim_sem_converse gives the converse and uniqueness (the '
+        'labellings correspond one-to-one; no acyclicity needed); elim_wf exports wf / forkIns1 of the result; that LogicSim computes a '
+        'consistent labelling is C01',
         'substitute: ports, state elements (up to order; names and order in the regular same-class case), pin-by-pin wiring and '
         'the equations outside the cell are theorems about the model; substitute_sem / substitute_sem_removing / resolve_sem (the copied '
         'implementation has the relational meaning of the cell) are theorems about the model under decidable hypotheses (a designated '
